@@ -50,7 +50,7 @@ class SmtpRelayWorld(object):
         peer = ScriptedPeer(server, script, lmtp=self.cfg.get('lmtp', False),
                             context=VContext() if self.cfg.get('tls') else None,
                             pipelining=self.cfg.get('pipelining', True), auth=bool(self.cfg.get('auth')),
-                            tls_immediately=(self.cfg.get('tls') == 'immediate'))
+                            tls_immediately=(self.cfg.get('tls') == 'immediate'), **self.cfg.get('peer_kw', {}))
         self.peers.append(peer)
         if self.cfg.get('unsolicited_partial'):
             peer.push_after_ehlo = self.cfg['unsolicited_partial']
@@ -71,6 +71,8 @@ class SmtpRelayWorld(object):
             kw['tls_immediately'] = cfg.get('tls') == 'immediate'
         if cfg.get('auth'):
             kw['credentials'] = ('user', 'pw')
+        if cfg.get('binary_encoder') is not None:
+            kw['binary_encoder'] = cfg['binary_encoder']
         ctx = VContext(fail=bool(cfg.get('client_tls_fail'))) if cfg.get('tls') else VContext()
         cls = StaticLmtpRelay if cfg.get('lmtp') else StaticSmtpRelay
         if cfg.get('lmtp'):
